@@ -34,7 +34,7 @@ ASSUMPTIONS = [
     "the discard is judged by probing the real cache (every pattern of the case: cached before/after) and by the Lean model",
 ]
 
-STRS = ["a", "b", "c", "x"]          # code space shared by str atoms and keyword names
+STRS = ["self", "func", "typed", "args"]   # code space shared by str atoms and keyword names: names a wrapper is likely to use itself
 
 
 # ---------------------------------------------------------------------------------------------
@@ -68,8 +68,11 @@ def py_args(pat):
     return tuple(_arg(a) for a in pat["a"]), {STRS[n]: _arg(a) for n, a in pat["k"]}
 
 
+_KWCODE = {"a": 0, "b": 1, "c": 2, "x": 3}     # the patterns below are written with short names; the real keyword is STRS[code]
+
+
 def P(*args, **kw):
-    return {"a": list(args), "k": [[STRS.index(n), a] for n, a in kw.items()]}
+    return {"a": list(args), "k": [[_KWCODE[n], a] for n, a in kw.items()]}
 
 
 I0, I1, I2 = ["i", 0], ["i", 1], ["i", 2]
@@ -237,8 +240,13 @@ class _Real:
             before = len(self.log)
             h = self.handle(inst)
             if self.lib == "a":
-                r = drive(h(*args, **kw))
-                value, exc = r.value, r.exc
+                try:
+                    coro = h(*args, **kw)
+                except BaseException as e:  # noqa: B036 - the call itself is rejected (e.g. a keyword the wrapper claims)
+                    value, exc = None, e
+                else:
+                    r = drive(coro)
+                    value, exc = r.value, r.exc
             else:
                 try:
                     value, exc = h(*args, **kw), None
